@@ -2,6 +2,8 @@ import CoercionModel.Model.Fix
 import CoercionModel.Props.C09
 import CoercionModel.Proofs.Flush
 import CoercionModel.Generated.F9
+import CoercionModel.Model.Skeletons
+import CoercionModel.Generated.F10
 set_option linter.unusedSimpArgs false
 /-
   C10 — Recovery converges to the same consistent terminal outcome.
@@ -120,5 +122,11 @@ example : NothingFailed { pre := some .completed, blocks := [.completed, .runnin
   simp [NothingFailed, isFailed]
 example : route (fixPlanStatus { pre := some .completed, blocks := [.completed, .running, .notStarted] }) = .resume := by decide
 example : route (fixPlanStatus { blocks := [.notStarted, .notStarted] }) = .start := by decide
+
+/-- the Go functions this property's model mirrors still have the shape the model was written against
+    (control-flow skeletons regenerated from /repo on every run, Model/Skeletons): recovery -/
+theorem facts_skeleton :
+    Generated.F10.recovery = Skeletons.recovery := by
+  decide
 
 end Coercion.C10
